@@ -12,8 +12,9 @@ import (
 )
 
 var tenantOrgs = []int64{0, 1, 7}
-var tenantIndexes = []string{"app", "app2", "ap", "app-prod", "web"}
-var tenantExprs = []string{"app", "app2", "ap", "app*", "ap*", "*", "web", "app,web", "app-prod", "al", "nosuch"}
+var tenantIndexes = []string{"app", "app2", "ap", "app-prod", "web", "app-prod-old"}
+// wildcards in leading, inner and trailing position; names that extend a name another expression matches
+var tenantExprs = []string{"app", "app2", "ap", "app*", "ap*", "*", "web", "app,web", "app-prod", "al", "nosuch", "*-prod", "a*-prod", "*pp", "app-*"}
 
 func tenantEvent(r *rand.Rand, org int64, index string, n int) json.RawMessage {
 	vid := fmt.Sprintf("o%d-%s-%d", org, index, n)
@@ -369,7 +370,7 @@ func init() {
 	register(&Check{
 		ID:    "C13",
 		Level: "exploration",
-		Rule: "each case is one seeded history over 2-3 organisations and 5 index names that are prefixes of each other (app, app2, ap, app-prod, web), with ingest, flush/rotation, alias add/remove (the shared alias name 'al'), index deletion and restarts (graceful, or killed after a flush); after every step match-all searches and `stats count by idx` are issued for every organisation over exact names, wildcards, '*', comma lists, the alias and a non-existent name, and compared with the tenant/index model. distinct = distinct operation shapes; non-trivial = at least two organisations hold an index of the same name or a deletion/alias step occurred",
+		Rule: "each case is one seeded history over 2-3 organisations and 6 index names that are prefixes of each other (app, app2, ap, app-prod, app-prod-old, web), with ingest, flush/rotation, alias add/remove (the shared alias name 'al'), index deletion and restarts (graceful, or killed after a flush); after every step match-all searches and `stats count by idx` are issued for every organisation over exact names, wildcards in leading, inner and trailing position, '*', comma lists, the alias and a non-existent name, and compared with the tenant/index model. distinct = distinct operation shapes; non-trivial = at least two organisations hold an index of the same name or a deletion/alias step occurred",
 		Run: func(c *Ctx) {
 			n := 100
 			if !c.Quick() {
